@@ -11,7 +11,31 @@ from vf.ref.interp import Obj
 STRING_STYLES = ("", ":ff-tail", ":ff-only", ":mixed")
 OPERATORS = ("required-none", "fixed-string-short", "fixed-string-long", "padded-string-long", "lengthref-string-long",
              "lengthref-array-long", "fixed-array-short", "fixed-array-long", "int-at-limit", "int-far-above", "enum-at-limit",
-             "array-element-at-limit", "casedata-none", "casedata-wrong-class", "casedata-for-empty-case")
+             "array-element-at-limit", "casedata-none", "casedata-wrong-class", "casedata-for-empty-case", "casedata-namesake-class")
+
+
+def case_paths(interp):
+    """simple class name -> every case-data class path of the specification carrying it (Shape.KindData1 and
+    Other.KindData1, or Shape.KindData2.KindData1, are namesakes)."""
+    cached = getattr(interp, "_case_paths", None)
+    if cached is not None:
+        return cached
+    out = {}
+
+    def visit(body, path):
+        for ins in body:
+            if ins.kind == "chunked":
+                visit(ins.body, path)
+            elif ins.kind == "switch":
+                for c in ins.cases:
+                    if c.body:
+                        sub = path + (interp.case_class_name(ins.field, c),)
+                        out.setdefault(sub[-1], []).append(sub)
+                        visit(c.body, sub)
+    for name, body in interp.bodies.items():
+        visit(body, (name,))
+    interp._case_paths = out
+    return out
 
 
 def _instrs(interp, cls):
@@ -45,6 +69,9 @@ def sites(interp, obj, path=(), heavy=False):
                     others = [c for c in ins.cases if c.body and c is not case]
                     if others:
                         out.append((path, "casedata-wrong-class", ins))
+                    want = tuple(obj.cls) + (interp.case_class_name(ins.field, case),)
+                    if any(p != want for p in case_paths(interp).get(want[-1], ())):
+                        out.append((path, "casedata-namesake-class", ins))
                 else:
                     if any(c.body for c in ins.cases):
                         out.append((path, "casedata-for-empty-case", ins))
@@ -183,6 +210,13 @@ def apply(interp, obj, site, vg=None):
         if vg is None:
             return None
         o.fields[ins.field + "_data"] = vg.obj(o.cls + (interp.case_class_name(ins.field, other),), False)
+    elif op == "casedata-namesake-class":
+        case = interp.select_case(ins, interp.switch_value(ins, o), o.cls)
+        want = tuple(o.cls) + (interp.case_class_name(ins.field, case),)
+        other = next(p for p in case_paths(interp).get(want[-1], ()) if p != want)
+        if vg is None:
+            return None
+        o.fields[ins.field + "_data"] = vg.obj(other, False)
     elif op == "casedata-wrong-class":
         case = interp.select_case(ins, interp.switch_value(ins, o), o.cls)
         other = next(c for c in ins.cases if c.body and c is not case)
